@@ -19,7 +19,12 @@ def main():
         f = sys._getframe(1)
         while f is not None and f.f_code.co_name in ("__init__", "init", "__deepcopy__", "_reconstruct", "deepcopy"):
             f = f.f_back
-        self._prov = f.f_code.co_name if f is not None else "?"
+        prov = f.f_code.co_name if f is not None else "?"
+        if prov == "_get_type_substitution":
+            # a substituted copy of an existing projection keeps the provenance of the original
+            src = f.f_locals.get("etype")
+            prov = getattr(src, "_prov", prov)
+        self._prov = prov
     tp.WildCardType.__init__ = init
 
     def provs(t, acc):
